@@ -24,7 +24,7 @@ CLASSES = {
 def plan(tier, seed):
     k = 10 if tier == "quick" else 400
     shards = [{"kind": "lib", "cls": c, "seed": seed, "shard": i, "n": 120} for c in CLASSES for i in range(k)]
-    kc = 8 if tier == "quick" else 160
+    kc = 12 if tier == "quick" else 200
     shards += [{"kind": "cli", "seed": seed, "shard": i, "n": 16} for i in range(kc)]
     return shards
 
